@@ -167,3 +167,108 @@ def chain_listings_complete(prog, cg, eff, chk, rid):
         raise AnalysisBroken('chain-listing rule: fewer than three chain listings found (%d): child ids, root ids, '
                              'entries of a list' % n)
     return n
+
+
+def new_tail_linked(prog, cg, eff, chk, rid):
+    """Appending to a 2.x entry chain: the function that INSERTs a row into PlaylistEntity makes the previous tail
+    point at it.  Two things make that link right: (1) the id written into the old tail's next-pointer is the id
+    SQLite gave the inserted row - last_insert_rowid() read after the INSERT - not a prediction (MAX(id) + 1 is
+    wrong for an AUTOINCREMENT table once the highest row has been deleted); (2) the old tail is found by what makes
+    it the tail - the row of this list whose next-pointer is the sentinel 0 - not by its id or position."""
+    n = 0
+    for f in prog.functions.values():
+        if f.body is None or f.is_pattern or not prog.in_repo(f.file) or '/v2/' not in (f.file or ''):
+            continue
+        ss = eff.sites(f)
+        ins = [s for s in ss if s.stored_in is not None and s.stored_in.kind == 'insert'
+               and (s.stored_in.table or '').lower() == 'playlistentity']
+        if not ins:
+            continue
+        nxt, group = CHAINS['playlistentity']
+        n += 1
+        chk.analysed(f)
+        short = (f.qualname or '').replace('djinterop::engine::', '')
+        ups = []
+        for s in ss:
+            st = s.stored_in
+            if st is not None and st.kind == 'update' and (st.table or '').lower() == 'playlistentity' and \
+                    any(c.lower() == nxt for c, _ in st.sets):
+                ups.append(s)
+        inst = '%s links the previous tail to the row it inserts' % short
+        if not ups:
+            chk.violation(rid, '%s|no relink of the previous tail' % short, locstr(ins[0].node),
+                          inst + ': not so - no UPDATE of %s follows the INSERT: the chain of the list splits' % nxt)
+            continue
+        locs = program.single_assignment_locals(f.node)
+        for u in ups:
+            st = u.stored_in
+            from .c01 import _conjuncts
+            conj = _conjuncts(st.where) if getattr(st, 'where', None) is not None else []
+            has_sentinel = any(re.match(r'^(\w+ \. )?%s = 0$' % nxt, c) for c in conj)
+            has_group = any(re.match(r'^(\w+ \. )?%s = \?\d*$' % group, c) for c in conj)
+            # the bind of the next-pointer: first bind of the statement (SET nxt = ? comes first)
+            pu = [p for p in st.params if p.role == 'set' and (p.column or '').lower() == nxt]
+            src_ok = False
+            why = 'the value bound to %s was not found' % nxt
+            if pu and pu[0].index < len(u.binds):
+                b = strip(u.binds[pu[0].index], explicit=True)
+                seen = 0
+                while b.get('kind') == 'DeclRefExpr' and (b.get('referencedDecl') or {}).get('id') in locs and seen < 4:
+                    b = strip(locs[b['referencedDecl']['id']], explicit=True)
+                    seen += 1
+                calls = [x for x in walk(b) if x.get('kind') == 'CXXMemberCallExpr'
+                         and strip(children(x)[0]).get('name') == 'last_insert_rowid']
+                if calls:
+                    line_c = (calls[0].get('loc') or [None, 0])[1] or 0
+                    line_i = (ins[0].node.get('loc') or [None, 0])[1] or 0
+                    if line_c >= line_i:
+                        src_ok = True
+                    else:
+                        why = 'last_insert_rowid() is read before the INSERT'
+                else:
+                    why = 'the id stored in the old tail does not come from last_insert_rowid() after the INSERT ' \
+                          '(a predicted id is wrong once the highest row of the AUTOINCREMENT table was deleted)'
+            if src_ok and has_sentinel and has_group:
+                chk.ok(rid, inst, locstr(u.node))
+            elif not src_ok:
+                chk.violation(rid, '%s|new tail id not from last_insert_rowid' % short, locstr(u.node),
+                              inst + ': not so - ' + why)
+            else:
+                chk.violation(rid, '%s|previous tail not found by its sentinel' % short, locstr(u.node),
+                              '%s: not so - the UPDATE selects the row to relink by %s, not by %s = ? AND %s = 0: '
+                              'in a list whose chain order differs from its id order (entries moved by other '
+                              'software) another row is relinked and the list ends up with two tails' % (
+                                  inst, conj, group, nxt))
+    if n < 1:
+        raise AnalysisBroken('tail-link rule: no function inserting into PlaylistEntity found')
+    return n
+
+
+def catalog_listing_unfiltered(prog, cg, eff, chk, rid):
+    """verify() learns what exists from its listing helpers.  The helper that lists sqlite_master selects by object
+    type alone: a further predicate (a name pattern, an exclusion list) hides objects from the comparison, so an
+    extra table or index whose name happens to match is never reported."""
+    from .. import sites as _sites
+    n = 0
+    for f in prog.functions.values():
+        if f.body is None or f.is_pattern or 'schema_validate_utils' not in (f.file or ''):
+            continue
+        for s_ in _sites.find_sites(f):
+            txt = s_.text
+            m = re.search(r'\bsqlite_master\b(.*)$', txt, re.I | re.S)
+            if not m or not re.match(r'^\s*SELECT\b', txt, re.I):
+                continue
+            n += 1
+            chk.analysed(f)
+            rest = m.group(1).strip().rstrip(';').strip()
+            inst = '%s lists sqlite_master by type alone (%r)' % ((f.qualname or '').split('::')[-1], txt)
+            if rest == '' or re.match(r"^WHERE\s+type\s*(=|==)\s*('\$\{\w+\}'|\?|'\w+')\s*(ORDER\s+BY\s+[\w\s,]+)?$", rest, re.I):
+                chk.ok(rid, inst, locstr(s_.node))
+            else:
+                chk.violation(rid, '%s|catalog listing filtered' % (f.qualname or '').split('::')[-1], locstr(s_.node),
+                              '%s: not so - the statement restricts the listing further (%s): an object excluded here is '
+                              'invisible to verify(), which then accepts a library with an extra table / view / index '
+                              'of such a name' % (inst, rest))
+    if n < 1:
+        raise AnalysisBroken('catalog-listing rule: no sqlite_master listing found in schema_validate_utils')
+    return n
